@@ -158,7 +158,7 @@ def rewriter_proj(lexer, parser):
 
 def run(ctx):
     ctx.rule = ("histories from the session machine MC_C20: sequential call sequences (<= MaxCalls) over 3 instance "
-                "pairings x 16 probes, and token-granular interleavings of 2 calls on disjoint instances with a bounded "
+                "pairings x 22 probes, and token-granular interleavings of 2 calls on disjoint instances with a bounded "
                 "number of context switches; non-trivial = distinct history with >= 2 calls")
     ctx.trusted = ["thread hand-off harness (deterministic: exactly one runnable thread at any time)"]
     quick = ctx.tier == "quick"
@@ -210,7 +210,7 @@ def run(ctx):
     # 2. interleaved schedules on disjoint instances
     res = tlc.run("MC_C20", constants={"MaxCalls": 2, "Sequential": "FALSE", "MaxInFlight": 2,
                                        "MaxSwitches": 2 if quick else 3,
-                                       "ProbeSet": "{1, 3, 5, 7, 9, 12}" if quick else "{1, 3, 4, 5, 7, 9, 10, 12, 15}"},
+                                       "ProbeSet": "{1, 3, 5, 7, 9, 12, 20}" if quick else "{1, 3, 4, 5, 7, 9, 10, 12, 15, 20, 22}"},
                   keep_lines=lambda r: r.get("k") == "case" and len(r["calls"]) == 2 and len(r["sched"]) > 2,
                   timeout=7000, check_count=False, heap="12g")
     ctx.add_tlc(res)
@@ -229,7 +229,12 @@ def run(ctx):
         ctx.sample({"interleaved": [[c["lex"], c["par"], texts[c["probe"] - 1]] for c in r["calls"]], "schedule": r["sched"]}, cap=5)
     # 3. hash seeds x import orders, in fresh subprocesses
     corpus = texts + ["concat(a, 'b', 'c') eq 'x'", "concat(a) eq 'x'", "length(a, b)", "geo.distance(a)", "a in (1, 2)",
-                      "f.g(a=1, b=2, c=3)", "not a", "- a", "a/b/c/any(x: x/y eq null)", "duration'P1D' eq d", "nullable", "x:"]
+                      "f.g(a=1, b=2, c=3)", "not a", "- a", "a/b/c/any(x: x/y eq null)", "duration'P1D' eq d", "nullable", "x:",
+                      # results that a set or dict inside the library would re-order under another hash seed
+                      "status in ('open', 'closed', 'on hold', 'open')", "id in (3, 1, 2, 3, 1)", "f.g(zeta=1, alpha=2, mid=3, alpha2=4)",
+                      "x in ('b', 'a', 'c', 'b', 'd', 'e', 'a')", "g in (01234567-89ab-cdef-0123-456789abcdef, 11234567-89ab-cdef-0123-456789abcdef, 01234567-89ab-cdef-0123-456789abcdef)",
+                      "d in (2020-01-02, 2020-01-01, 2020-01-02)", "concat(concat(b, a), concat(a, b)) eq concat(a, a)",
+                      "a eq 1 or b eq 2 or a eq 1 or c eq 3 or b eq 2", "hassubset((3, 1, 2, 3), (1, 1))", "n in (1.5, 1.0, 1.5, 2e0)"]
     orders = [([], ["odata_query.sqlalchemy", "odata_query.django", "odata_query.sql", "odata_query.roundtrip", "odata_query.rewrite"]),
               (["odata_query.sqlalchemy"], ["odata_query.sql"]),
               (["django-setup", "odata_query.django"], ["odata_query.sqlalchemy"]),
